@@ -45,7 +45,12 @@ struct WkdRun {
     // after a call that drew one PowersOfX scalar first: what was it?
     Bn drawn_scalar(const char* what) {
         SampleCursor c(env.stream.reqs); Bn y; uint64_t d[4];
-        if (!model_powers_random(c, y, d)) env.fail("C10", "M-sample:request-sequence", std::string(what) + ": " + c.err);
+        if (!model_powers_random(c, y, d)) {
+            // a randomised step that drew nothing at all did not re-randomise: that is the scheme property's own clause ("re-randomisation by a fresh
+            // exponent applied to every component"), not only the sampler's
+            if (env.stream.reqs.empty() && (env.focus == "C11" || env.focus == "C12" || env.focus == "C13" || env.focus == "C14")) env.fail(env.focus.c_str(), "randomised-step-drew-no-randomness", std::string(what) + " returned without asking the random source for anything");
+            env.fail("C10", "M-sample:request-sequence", std::string(what) + ": " + c.err);
+        }
         if (c.rejections) env.count("probe:rejections_in_scheme_draws", c.rejections);
         return y;
     }
